@@ -102,7 +102,9 @@ OkTyCmp(e) == LET c == Cmp(SFromJson(e.a.a), SFromJson(e.a.b)) IN
 
 OkTyOp(e) == LET t == e.a.ty
                  x == Op(t, e.a.op, SFromJson(e.a.a), SFromJson(e.a.b), e.o.debug) IN
-  IF x.k = "panic" THEN e.r.k = "panic"
+  IF RangeOnlyOp(t, e.a.op)
+    THEN e.r.k = "panic" \/ (e.r.k = "val" /\ IsSJson(e.r.v) /\ TIn(t, SFromJson(e.r.v)))
+  ELSE IF x.k = "panic" THEN e.r.k = "panic"
   ELSE /\ e.r.k = "val" /\ IsSJson(e.r.v)
        /\ SFromJson(e.r.v) = x.v
        /\ TIn(t, SFromJson(e.r.v))                \* never outside [MIN, MAX]
@@ -130,7 +132,7 @@ Judged(e) ==
                             /\ SrcIn(e.a.from, SFromJson(e.a.v))
     [] e.ev = "ty_cmp"   -> e.a.ty \in Types /\ IsSJson(e.a.a) /\ IsSJson(e.a.b)
                             /\ TIn(e.a.ty, SFromJson(e.a.a)) /\ TIn(e.a.ty, SFromJson(e.a.b))
-    [] e.ev = "ty_op"    -> e.a.ty \in Types /\ e.a.op \in Ops /\ HasOp(e.a.ty, e.a.op)
+    [] e.ev = "ty_op"    -> e.a.ty \in Types /\ e.a.op \in Ops /\ (HasOp(e.a.ty, e.a.op) \/ RangeOnlyOp(e.a.ty, e.a.op))
                             /\ IsSJson(e.a.a) /\ IsSJson(e.a.b)
                             /\ TIn(e.a.ty, SFromJson(e.a.a)) /\ TIn(e.a.ty, SFromJson(e.a.b))
     [] e.ev = "ty_ops"   -> e.a.ty \in {"I11", "U11"} /\ e.a.op \in {"add", "sub", "mul"}
